@@ -85,7 +85,7 @@ func init() {
 		Assumptions: []string{"calls are issued from one goroutine so FIFO separators attribute bytes to calls", "flood control off (Flood=true) so that 10^5 lines can be written"},
 		Plan: func(tier string, seed int64) []Batch {
 			bs := []Batch{{Name: "enum", Args: map[string]string{"mode": "enum"}, Race: false, Procs: 2}}
-			n := 2
+			n := 6
 			if tier == "thorough" {
 				n = 12
 			}
@@ -256,7 +256,7 @@ func runC08(c *Ctx) {
 		c.R.Exhaustive["28 methods x every argument position x 22 hostile strings x 5 SplitLen values (others benign)"] = c.Only == ""
 	case "prng":
 		part, parts := c.ArgInt("part", 0), c.ArgInt("parts", 1)
-		total := c.Pick(30_000, 1_500_000)
+		total := c.Pick(120_000, 2_000_000)
 		per := c.ArgInt("count", total/parts)
 		var cs *c08Sess
 		curSL := -999
